@@ -18,7 +18,7 @@ def oracle_many(cases, timeout=600):
     return res
 
 
-KNOWN_CLASSES = {"c01": ["kfa", "kfb", "kfc", "kfd"], "c04": ["kfa"], "c06": ["kfa"], "c07": [], "c08": ["kfb", "kfc", "kfd"],
+KNOWN_CLASSES = {"c01": ["kfa", "kfb", "kfc", "kfd", "kfe"], "c04": ["kfa"], "c06": ["kfa"], "c07": [], "c08": ["kfb", "kfc", "kfd", "kfe"],
                  "c09": ["kfa"], "c10w": [], "c10": ["f4"], "c11": [], "c19": [], "c05": []}
 
 
